@@ -290,6 +290,7 @@ func c36NewWorld(f c36Fork) *c36World {
 		return types.MustSignNewTx(w.keys[sender], w.signer, &types.DynamicFeeTx{ChainID: chainID, Nonce: nonce, To: to, Value: big.NewInt(value), Gas: gas, GasFeeCap: feeCap, GasTipCap: tip, Data: data})
 	}
 	gwei := func(n int64) *big.Int { return new(big.Int).Mul(big.NewInt(n), big.NewInt(params.GWei)) }
+	cg := func(n int64) *big.Int { return new(big.Int).Mul(big.NewInt(n), big.NewInt(params.GWei/100)) } // 0.01 gwei: every entry has its own effective tip, so the order of the block does not depend on tie breaking
 	blob := func(sender int, n int, tag byte, tip int64) *types.Transaction {
 		version := byte(types.BlobSidecarVersion0)
 		if f.osaka {
@@ -297,7 +298,7 @@ func c36NewWorld(f c36Fork) *c36World {
 		}
 		sc := c36Sidecar(version, n, tag)
 		return types.MustSignNewTx(w.keys[sender], w.signer, &types.BlobTx{
-			ChainID: uint256.MustFromBig(chainID), Nonce: 0, GasTipCap: uint256.MustFromBig(gwei(tip)), GasFeeCap: uint256.MustFromBig(gwei(10)), Gas: 1_000_000,
+			ChainID: uint256.MustFromBig(chainID), Nonce: 0, GasTipCap: uint256.MustFromBig(cg(tip)), GasFeeCap: uint256.MustFromBig(gwei(10)), Gas: 1_000_000,
 			To: c36Adder, Value: new(uint256.Int), BlobFeeCap: uint256.NewInt(1_000_000), BlobHashes: sc.BlobHashes(), Sidecar: sc,
 		})
 	}
@@ -317,21 +318,21 @@ func c36NewWorld(f c36Fork) *c36World {
 	initcode := program.New().Sstore(1, 0x36).ReturnViaCodeCopy(adder).Bytes()
 	w.entries = []c36Entry{
 		{"XFER", dyn(0, 0, &c36Fresh, 1000, 1_000_000, gwei(10), gwei(5), nil), "always"},
-		{"XFER2", dyn(0, 1, &c36Fresh, 7, 1_000_000, gwei(10), gwei(9), nil), "after:XFER"},
+		{"XFER2", dyn(0, 1, &c36Fresh, 7, 1_000_000, gwei(10), cg(890), nil), "after:XFER"},
 		{"GAP", dyn(1, 1, &c36Fresh, 1, 1_000_000, gwei(10), gwei(8), nil), "never"},
 		{"REVERT", dyn(2, 0, &c36Reverter, 0, 1_000_000, gwei(10), gwei(4), nil), "always"},
-		{"OOG", dyn(3, 0, &c36Looper, 0, 1_000_000, gwei(10), gwei(6), nil), "always"},
-		{"BIGGAS", dyn(4, 0, &c36Fresh, 1, 40_000_000, gwei(10), gwei(7), nil), "never"},
+		{"OOG", dyn(3, 0, &c36Looper, 0, 1_000_000, gwei(10), cg(650), nil), "always"},
+		{"BIGGAS", dyn(4, 0, &c36Fresh, 1, 40_000_000, gwei(10), cg(750), nil), "never"},
 		{"CHEAP", dyn(5, 0, &c36Fresh, 1, 1_000_000, big.NewInt(1000), big.NewInt(1000), nil), "never"},
-		{"BLOB1", blob(6, 1, 1, 2), "always"},
-		{"BLOB2", blob(7, 2, 2, 3), "always"},
+		{"BLOB1", blob(6, 1, 1, 220), "always"},
+		{"BLOB2", blob(7, 2, 2, 320), "always"},
 		{"SETCODE", setcode, "prague"},
 		{"CREATE", dyn(9, 0, nil, 0, 3_000_000, gwei(10), gwei(2), initcode), "always"},
 		{"SELFDESTRUCT", dyn(10, 0, &c36Suicide, 0, 1_000_000, gwei(10), gwei(1), nil), "always"},
-		{"WREQ", dyn(11, 0, &params.WithdrawalQueueAddress, 1, 1_000_000, gwei(10), gwei(10), wreq), "always"},
+		{"WREQ", dyn(11, 0, &params.WithdrawalQueueAddress, 1, 1_000_000, gwei(10), cg(910), wreq), "always"},
 		{"LOWGAS", dyn(12, 0, &c36Fresh, 1, 20_000, gwei(12), gwei(11), nil), "never"},
 		// transactions whose executability depends on an earlier transaction of the same block
-		{"NONCE_DUP", dyn(0, 0, &c36Fresh, 5, 1_000_000, gwei(10), new(big.Int).Add(gwei(9), big.NewInt(500_000_000)), nil), "always"},
+		{"NONCE_DUP", dyn(0, 0, &c36Fresh, 5, 1_000_000, gwei(10), cg(905), nil), "always"},
 		{"POOR1", dyn(poor, 0, &w.addrs[1], 1_000_000_000_000_000, 100_000, gwei(10), gwei(7), nil), "always"},
 		{"POOR2", dyn(poor, 1, &w.addrs[1], 0, 100_000, gwei(10), gwei(7), nil), "never"},
 		{"DRAIN_V", dyn(15, 0, &vAddr, 0, 1_000_000, gwei(10), gwei(9), nil), "always"},
@@ -377,11 +378,18 @@ type c36Rig struct {
 }
 
 func c36NewRig(w *c36World, a c36Attrs) *c36Rig {
-	builder, err := core.NewBlockChain(rawdb.NewMemoryDatabase(), w.gspec, w.engine, nil)
+	// The long-lived chains run without the snapshot tree and without a clean-node cache: every
+	// imported sibling would otherwise allocate a multi-megabyte diff-layer bloom filter, which
+	// dominated the run time. The default configuration (snapshots on) is used by the per-block
+	// fresh chains below.
+	lean := *core.DefaultConfig()
+	lean.SnapshotLimit = 0
+	lean.TrieCleanLimit = 0
+	builder, err := core.NewBlockChain(rawdb.NewMemoryDatabase(), w.gspec, w.engine, &lean)
 	if err != nil {
 		panic(err)
 	}
-	importer, err := core.NewBlockChain(rawdb.NewMemoryDatabase(), w.gspec, w.engine, nil)
+	importer, err := core.NewBlockChain(rawdb.NewMemoryDatabase(), w.gspec, w.engine, &lean)
 	if err != nil {
 		panic(err)
 	}
